@@ -176,6 +176,7 @@ type Rep struct {
 	Delay time.Duration
 	Up    bool // the tracker would answer ok to its next announce
 	Peers []*net.TCPAddr
+	Status int   // HTTP, kind "garbage": status code of the reply (0 = 200)
 	Msg   string // kind "fail": the failure text (UDP: the bytes after the header of the error packet); "" = "scripted failure"
 }
 
@@ -385,7 +386,7 @@ func (k *Trk) script(r vh.AnnReq) vh.AnnReply {
 		if k.UDP {
 			out = vh.AnnReply{RawBody: []byte{0, 0, 0, 1, 0, 0, 0, 0, 9, 9}, Delay: rep.Delay} // announce action, truncated
 		} else {
-			out = vh.AnnReply{RawBody: []byte("<html>not bencode</html>"), Delay: rep.Delay}
+			out = vh.AnnReply{RawBody: []byte("<html>not bencode</html>"), Delay: rep.Delay, Status: rep.Status}
 		}
 	case "retry":
 		res = "retry"
